@@ -104,7 +104,7 @@ def spell(tree: Tree, kind: str, from_dir: str, target: str, k: int) -> str:
         link = _norm(os.path.join(from_dir, name))
         tree.links[link] = _norm(os.path.dirname(_norm(target)) or '.')
         tree.link_is_abs[link] = True
-        tree.has_dir_link = True
+        tree.has_dir_link = False
         return name + '/' + os.path.basename(target)
     raise ValueError(kind)
 
